@@ -3,6 +3,7 @@ SPECIFICATION Spec
 CONSTANTS
   GRIDS <- QuickGrids
   SGRIDS <- McSolveGrids
+  AGRIDS <- TinyGrids
   KMAX = 4
   DEN = 2
   OCCVALS = {0, 1, 2}
